@@ -13,7 +13,7 @@ For every main theorem: an `example` that applies it to a concrete, non-trivial 
 `by decide` is used wherever the kernel can evaluate; `#guard` (compiled evaluation) where it cannot: the well-founded recursions
 `findCompLoop` / `dfsLoop` of `Model/Algo.lean`, and `toString` on `Int` in `Sort.suffix`.
 -/
-namespace Gaftools.NonVacuous
+namespace Gaftools.NonVacuousA
 
 /-! ## TieA7 — the record text layer -/
 section A7
@@ -670,4 +670,4 @@ example := emptyGFA_gen
 
 end A25
 
-end Gaftools.NonVacuous
+end Gaftools.NonVacuousA
